@@ -134,6 +134,24 @@ Proof. exact doc_tags_order_irrelevant. Qed.
 Theorem C06_tags_cfg_order_irrelevant : forall V cmp tags_of (r : node V) cfg cfg' v,
   Permutation cfg cfg' -> doc_tags V cmp tags_of cfg r v = doc_tags V cmp tags_of cfg' r v.
 Proof. exact doc_tags_cfg_order_irrelevant. Qed.
+(* non-vacuity for the tag array: tags that differ only in letter case, a
+   configured name that an endpoint also uses, a tag carried only by an
+   unpublished endpoint (listed all the same: see the statement) and one carried
+   only by an endpoint not served at the version *)
+Definition ex_tags (e : endpoint N) : list str :=
+  if str_eqb (e_id e) [49] then [[100]; [68]; [100]]        (* "d" "D" "d" *)
+  else if str_eqb (e_id e) [50] then [[122]]                 (* "z": unpublished, from version 2 *)
+  else [[99]; [100; 105]].                                   (* "c" (configured) "di" *)
+Example C06_tags_nonvacuous :
+  match build N N.compare ex_table, build N N.compare (rev ex_table) with
+  | Ok r, Ok r' =>
+      doc_tags N N.compare ex_tags [[99]; [98]] r 1 = [[68]; [98]; [99]; [100]; [100; 105]] /\
+      doc_tags N N.compare ex_tags [[99]; [98]] r 3 = [[98]; [99]; [100; 105]; [122]] /\
+      doc_tags N N.compare ex_tags [[98]; [99]] r' 3 = doc_tags N N.compare ex_tags [[99]; [98]] r 3
+  | _, _ => False
+  end.
+Proof. vm_compute. repeat split. Qed.
+
 Print Assumptions C06_tags_sorted.
 Print Assumptions C06_tags_exact.
 Print Assumptions C06_tags_order_irrelevant.
